@@ -310,6 +310,33 @@ func checkC18(c *Check) {
 	checkNoSharedState(c, "O-C18.6")
 	parserExhaustsInput(c)
 	parserFailsOnBadRead(c)
+	cachedBundleNotWritten(c, "O-C18.6")
+}
+
+// cachedBundleNotWritten: the fetcher (helpers inlined) stores nothing into the
+// object it got from Cache.Get: that object is shared with every other check
+// that reads the same cache entry, possibly at this very moment.
+func cachedBundleNotWritten(c *Check, rule string) {
+	pg := c.pgOf(fetchFn)
+	if pg == nil {
+		return
+	}
+	var bad []string
+	nget := 0
+	for _, s := range pg.States {
+		for _, e := range s.Out {
+			for _, l := range e.Labels {
+				if l.Kind == "call" && strings.HasPrefix(l.Key, "(ncg/revocation/crl.Cache).Get(") {
+					nget++
+				}
+				if (l.Kind == "store" || l.Kind == "lstore") && strings.HasPrefix(l.Key, "(ncg/revocation/crl.Cache).Get(") {
+					bad = append(bad, c.P.pos(l.Node.Pos)+": "+l.String())
+				}
+			}
+		}
+	}
+	c.floor("Cache.Get call edges in Fetch", 1, nget)
+	c.add(rule, "the cached bundle is never modified", "Fetch and its helpers store nothing into the bundle returned by Cache.Get (it is shared with concurrent checks; a refreshed delta must go into a new bundle)", len(bad) == 0, "", dedupe(sortedCopy(bad))...)
 }
 
 // parserExhaustsInput: O-C18.4. The parser of the freshest-CRL extension returns
@@ -404,6 +431,24 @@ func parserFailsOnBadRead(c *Check) {
 		c.floor(fs.Obj.Name()+" failed-read edges", 3, len(edgeSources(pg, failed)))
 		okRets := returnsWhere(pg, func(s *PState) bool { return retNilErr(s, 1) })
 		c.floor(fs.Obj.Name()+" successful returns", 1, len(okRets))
+		// every name of a distribution point is looked at: after a location was collected the parser
+		// asks again whether the same name list is exhausted (an `if` in place of the inner loop keeps
+		// only the first location, and the others are never tried when it fails)
+		collected := LP{Desc: "a location is collected", F: func(l Label) bool {
+			return l.Kind == "assign" && l.T2 != nil && l.T2.Op == "call" && l.T2.Name == "append" && len(l.T2.Args) == 2 && l.T2.Args[0].Op == "self" && l.Node != nil && l.Node.Note == ""
+		}}
+		emptyTest := func(inner bool) LP {
+			return LP{Desc: "emptiness test", F: func(l Label) bool {
+				if l.Kind != "atom" || l.Implied || !strings.HasPrefix(l.Key, "Truth((golang.org/x/crypto/cryptobyte.String).Empty(") {
+					return false
+				}
+				return strings.Contains(l.Key, "ContextSpecific(6)") == inner
+			}}
+		}
+		if len(edgeSources(pg, collected)) > 0 {
+			tg := append(append([]*PState{}, okRets...), edgeSources(pg, emptyTest(false))...)
+			c.noPathFrom(pg, "O-C18.4", fs.Obj.Name()+": every name of a distribution point is examined", "after a location was collected the rest of the same name list is examined before the next distribution point or the return", collected, tg, ptr(emptyTest(true)))
+		}
 		c.noPathFrom(pg, "O-C18.4", fs.Obj.Name()+": a failed DER read is an error", "after a DER read failed the parser does not return successfully (with the locations read so far, or none)", failed, okRets, nil)
 	}
 	c.floor("distribution-point parsers (read discipline)", 1, n)
